@@ -128,6 +128,12 @@ def build(ctx, oq, rng, cfg):
         big[..., ::2] = xf
         big[..., 1::2] = xf.flip(-1)
         xsrc, post = big, (lambda t: t[..., ::2])
+    elif xlay == "col_range":
+        # a range of columns of a wider tensor: dense rows (last stride 1) spaced by a larger row stride
+        big = torch.zeros(tuple(xf.shape[:-1]) + (2 * K,), dtype=wd)
+        big[..., :K] = xf
+        big[..., K:] = xf.flip(-1)
+        xsrc, post = big, (lambda t: t[..., :K])
     elif xlay == "expanded_col":
         xsrc, post = xf[..., :1].contiguous(), (lambda t: t.expand(xshape))
     elif xlay == "expanded_row":
@@ -427,7 +433,7 @@ def run(ctx):
                        brank=int(rng.choice([1, 2, 2, 2, 3, 3, 4])), bias=bool(rng.random() < 0.5),
                        mode="exact" if rng.random() < 0.45 else "realistic",
                        xlay=["contiguous", "contiguous", "contiguous", "transposed", "transposed", "sliced", "expanded_col",
-                             "expanded_row"][int(rng.integers(8))],
+                             "expanded_row", "col_range"][int(rng.integers(9))],
                        wlay=["contiguous", "contiguous", "contiguous", "transposed_storage", "expanded_rows"][int(rng.integers(5))])
             if wk.endswith("_lastaxis"):
                 cfg["mode"] = "realistic"
